@@ -342,3 +342,45 @@ pub fn batch_forged<S: Sch>(cfg: &Cfg, ntapes: usize) -> Verdict {
     }
     Verdict::Hold
 }
+
+/// IPA, "extra rounds with identity-padded generators": the committer key is extended with identity elements to
+/// twice its length (public fields), the library's own prover is run with it on p' = p + X^(d+1) * q against the
+/// honest commitment and state of p, and the proof (one more folding round than the verifier's key dictates) is
+/// presented for the value p'(z), assumed different from p(z).
+pub fn ipa_extra_rounds(cfg: &Cfg) -> Verdict {
+    use ark_poly::DenseUVPolynomial;
+    use ark_poly_commit::LabeledPolynomial;
+    let mut w = match catch(|| build::<Ipa>(cfg)) {
+        Ok(Ok(w)) => w,
+        _ => return Verdict::Discard("honest phase failed".into()),
+    };
+    let n = w.ck.comm_key.len();
+    let mut ck2 = w.ck.clone();
+    for _ in 0..n {
+        ck2.comm_key.push(crate::engine::grp::TA(SF::zero()));
+    }
+    let mut c = w.coeffs[0].clone();
+    c.resize(n, SF::zero());
+    c.push(sym("q0"));
+    c.push(sym("q1"));
+    let p2 = UP::from_coefficients_vec(c);
+    let lp = w.lps[0].clone();
+    let lp2 = LabeledPolynomial::new(lp.label().clone(), p2, lp.degree_bound(), lp.hiding_bound());
+    let pt = w.points[0].1;
+    let v_true = lp.evaluate(&pt);
+    let v_claim = lp2.evaluate(&pt);
+    if !assume_ne(v_true, v_claim, "p'(z) == p(z)") {
+        return Verdict::Hold;
+    }
+    let sp0 = sponge(cfg, 1);
+    let (mut sp_p, mut sp_v) = (sp0.clone(), sp0.clone());
+    let comms = vec![w.comms[0].clone()];
+    let states = vec![w.states[0].clone()];
+    let proof = match catch(|| IpaPC::open(&ck2, [&lp2], &comms, &pt, &mut sp_p, &states, Some(&mut w.rng)).map_err(|e| errname(&e))) {
+        Ok(Ok(p)) => p,
+        // a prover that refuses the padded key has produced no proof
+        _ => return Verdict::Hold,
+    };
+    let r = catch(|| IpaPC::check(&w.vk, &comms, &pt, vec![v_claim], &proof, &mut sp_v, None).map_err(|e| errname(&e)));
+    verdict(r, "IPA proof with an extra folding round under an identity-padded key", false)
+}
